@@ -41,9 +41,10 @@ MDNS == 5353
 ClausesOf ==
   [C03 |-> {"C03_MissingAnswer", "C03_UnexpectedAnswer", "C03_ConfiguredTtl", "C03_AdditionalsOwn", "C03_AdditionalRepeatsAnswer"},
    C11 |-> {"C11_ProbeImmediate", "C11_UnicastReply", "C11_UnicastEcho", "C11_NoFlushInUnicast", "C11_SameSocket", "C11_UnexpectedUnicast",
-            "C11_MulticastFormat", "C11_QuRouting"},
+            "C11_MulticastFormat", "C11_WellFormedReply", "C11_QuRouting"},
    C12 |-> {"C12_NoEarlyOrUnsolicited", "C12_AnsweredAtOnce", "C12_By500", "C12_ProtectedBy1200", "C12_NoDuplicateInBatch"},
    C08 |-> {"C08_GoodbyeComplete", "C08_NoResurrection", "C08_AnnouncementComplete"},
+   C15 |-> {"C15_NoException", "C15_OversizeIgnored", "C15_InvalidIgnored", "C15_CanaryAdded", "C15_CanaryAnswered"},
    C17 |-> {"C17_Quiet", "C17_GoodbyesBeforeClose", "C17_Idempotent", "C17_NoTimerRaises"},
    C09 |-> {"C09_ProbeSchedule", "C09_ProbeShape", "C09_ConflictDetected", "C09_Rename", "C09_SpuriousFailure", "C09_WrongException",
             "C09_NeverTwice", "C09_NeverAnnounced", "C09_AnnouncedBeforeProbing", "C09_AnnouncementComplete"}]
@@ -52,7 +53,7 @@ Bad(cond, clause) == cond /\ Own(clause)
 Fail(st, clause) == [st EXCEPT !.err = clause]
 
 NoSvc == [sid |-> -1]
-NoExp == [on |-> FALSE, u |-> {}, uopt |-> {}, dst |-> 0, port |-> 0, sock |-> 0, id |-> 0, qs |-> <<>>, legacy |-> FALSE, done |-> FALSE, t |-> -1]
+NoExp == [on |-> FALSE, canary |-> FALSE, u |-> {}, uopt |-> {}, dst |-> 0, port |-> 0, sock |-> 0, id |-> 0, qs |-> <<>>, legacy |-> FALSE, done |-> FALSE, t |-> -1]
 
 (* registration in progress (RFC 6762 8.1): candidate k of cands is being probed since instant r, i probes seen *)
 NoProbe == [on |-> FALSE, sid |-> -1, cands |-> <<>>, k |-> 1, r |-> 0, i |-> 0, rename |-> FALSE, exact |-> {}, fail |-> FALSE]
@@ -60,7 +61,7 @@ NoProbe == [on |-> FALSE, sid |-> -1, cands |-> <<>>, k |-> 1, r |-> 0, i |-> 0,
 InitState ==
   [reg |-> [k \in 0..7 |-> NoSvc], seen |-> <<>>, lastDid |-> 0, lastProc |-> -100000, lastQU |-> FALSE,
    obl |-> {}, qn |-> 0, slots |-> {}, gone |-> {}, exp |-> NoExp, hold |-> {}, inRecv |-> FALSE,
-   lastTcSrc |-> 0, closed |-> FALSE, closing |-> FALSE, pr |-> NoProbe, pendReg |-> NoSvc, rejected |-> {}, again |-> <<>>, err |-> ""]
+   lastTcSrc |-> 0, oversize |-> FALSE, invalid |-> FALSE, added |-> {}, closed |-> FALSE, closing |-> FALSE, pr |-> NoProbe, pendReg |-> NoSvc, rejected |-> {}, again |-> <<>>, err |-> ""]
 
 (* ------------------------------------------------------------------ registry *)
 Sids(st) == {k \in 0..7 : st.reg[k] # NoSvc}
@@ -148,7 +149,7 @@ Answer(st, Q, dst, sock, id) ==
   LET rt == Route(st, Q) IN
   [st EXCEPT !.qn = @ + 1,
              !.obl = @ \cup NewObl(st, Q, rt),
-             !.exp = [on |-> TRUE, u |-> rt.u \ rt.opt, uopt |-> rt.u \cap rt.opt, dst |-> dst, port |-> Q.port, sock |-> sock, id |-> id,
+             !.exp = [on |-> TRUE, canary |-> FALSE, u |-> rt.u \ rt.opt, uopt |-> rt.u \cap rt.opt, dst |-> dst, port |-> Q.port, sock |-> sock, id |-> id,
                       qs |-> Q.echo, legacy |-> Q.port # MDNS, done |-> FALSE, t |-> Q.ta]]
 
 (* ------------------------------------------------------------------ deadlines *)
@@ -319,7 +320,10 @@ Pkt(e) == [qs |-> e.qs, an |-> e.an, nauth |-> Len(e.ns), id |-> e.id, did |-> e
 
 OnRecv(st0, e) ==
   LET st == [st0 EXCEPT !.inRecv = TRUE] IN
-  IF e.bad THEN [st EXCEPT !.lastDid = e.did, !.lastProc = e.t, !.lastQU = FALSE]
+  IF e.len > 8966 THEN [st EXCEPT !.oversize = TRUE]          \* over the absolute limit: ignored altogether
+  ELSE IF e.bad /\ ~e.libvalid
+       THEN [st EXCEPT !.lastDid = e.did, !.lastProc = e.t, !.lastQU = FALSE, !.invalid = TRUE]    \* malformed: nothing may follow from it
+  ELSE IF e.bad THEN [st EXCEPT !.lastDid = e.did, !.lastProc = e.t, !.lastQU = FALSE]
   ELSE LET dup == e.did = st.lastDid /\ e.t - 1000 < st.lastProc /\ ~st.lastQU
            hasQU == \E k \in 1..Len(e.qs) : e.qs[k][3] = 1
        IN IF dup THEN st
@@ -338,7 +342,8 @@ OnRecv(st0, e) ==
                      a == Assemble([pkts |-> old], <<Pkt(e)>>)
                      Q == [qs |-> AllQs(pk), echo |-> pk[1].qs, known |-> a.known, probe |-> a.probe, port |-> e.port,
                            tq |-> e.t, ta |-> e.t, single |-> TotalQs(pk) = 1, firstSingleImm |-> FirstSingleImm(pk)]
-                 IN Answer([st1 EXCEPT !.hold = {h \in @ : h.src # e.src}], Q, e.src, e.sock, pk[1].id)
+                     ans == Answer([st1 EXCEPT !.hold = {h \in @ : h.src # e.src}], Q, e.src, e.sock, pk[1].id)
+                 IN [ans EXCEPT !.exp.canary = ("tag" \in DOMAIN e /\ e.tag = "canary")]
 
 OnRand(st, e) ==
   IF e.site = "tc" /\ \E h \in st.hold : h.src = st.lastTcSrc
@@ -347,8 +352,9 @@ OnRand(st, e) ==
   ELSE st
 
 OnRecvDone(st, e) ==
-  LET st1 == [st EXCEPT !.inRecv = FALSE] IN
-  IF Bad(st1.exp.on /\ st1.exp.u # {} /\ ~st1.exp.done, "C11_UnicastReply") THEN Fail(st1, "C11_UnicastReply")
+  LET st1 == [st EXCEPT !.inRecv = FALSE, !.oversize = FALSE, !.invalid = FALSE] IN
+  IF Bad(st1.exp.on /\ st1.exp.canary /\ ~st1.exp.done, "C15_CanaryAnswered") THEN Fail(st1, "C15_CanaryAnswered")
+  ELSE IF Bad(st1.exp.on /\ st1.exp.u # {} /\ ~st1.exp.done, "C11_UnicastReply") THEN Fail(st1, "C11_UnicastReply")
   ELSE IF Bad(\E o \in st1.obl : o.cls = "now" /\ o.st = "open" /\ o.qt = e.t, "C12_AnsweredAtOnce") THEN Fail(st1, "C12_AnsweredAtOnce")
   ELSE IF Bad(\E o \in st1.obl : o.cls = "probe" /\ o.st = "open" /\ o.qt = e.t, "C11_ProbeImmediate") THEN Fail(st1, "C11_ProbeImmediate")
   ELSE [st1 EXCEPT !.exp = NoExp]
@@ -375,7 +381,10 @@ ContentClause(st, e, ans, opt) ==
 QKey(qs) == [k \in 1..Len(qs) |-> <<qs[k][1], qs[k][2], qs[k][4]>>]     \* the QU bit is not echoed (unicast reply)
 OnUnicast(st, e) ==
   LET x == st.exp IN
-  IF Bad(~x.on \/ x.done \/ x.u \cup x.uopt = {}, "C11_UnexpectedUnicast") THEN Fail(st, "C11_UnexpectedUnicast")
+  \* the well-formed query sent after a fuzz stream must get its complete unicast answer
+  IF Bad(x.on /\ x.canary /\ ~(e.dst = x.dst /\ e.port = x.port /\ e.id = x.id /\ x.u \subseteq RidsOf(e.an)
+                               /\ RidsOf(e.an) \subseteq x.u \cup x.uopt /\ x.u # {}), "C15_CanaryAnswered") THEN Fail(st, "C15_CanaryAnswered")
+  ELSE IF Bad(~x.on \/ x.done \/ x.u \cup x.uopt = {}, "C11_UnexpectedUnicast") THEN Fail(st, "C11_UnexpectedUnicast")
   ELSE IF ~x.on THEN st
   ELSE IF Bad(e.dst # x.dst \/ e.port # x.port \/ e.t # x.t, "C11_UnicastReply") THEN Fail(st, "C11_UnicastReply")
   ELSE IF Bad(e.sock # x.sock, "C11_SameSocket") THEN Fail(st, "C11_SameSocket")
@@ -405,7 +414,9 @@ OnMulticastReply(st, e) ==
                               ELSE o : o \in st.obl}]
 
 OnSend(st, e) ==
-  IF e.bad THEN Fail(st, "C11_MulticastFormat")
+  IF Bad(st.oversize, "C15_OversizeIgnored") THEN Fail(st, "C15_OversizeIgnored")
+  ELSE IF Bad(st.invalid, "C15_InvalidIgnored") THEN Fail(st, "C15_InvalidIgnored")
+  ELSE IF e.bad THEN (IF Bad(TRUE, "C11_WellFormedReply") THEN Fail(st, "C11_WellFormedReply") ELSE st)   \* not even decodable
   ELSE IF Bad(Resurrects(st, e), "C08_NoResurrection") THEN Fail(st, "C08_NoResurrection")
   ELSE IF ~e.resp THEN (IF e.ns # <<>> THEN OnProbe(st, e) ELSE st)      \* probe queries; other queries belong to C10/C13
   ELSE IF Bad(\E p \in Pairs(e.an) \cup Pairs(e.ar) : p[2] > 0 /\ p[1] \in st.rejected /\ p[1] \notin Owned(st), "C09_NeverAnnounced")
@@ -446,7 +457,11 @@ Step(st0, e, alt) ==
           [] e.ev = "api_ret"   -> OnApiRet(st1, e)
           [] e.ev = "rand"      -> OnRand(st1, e)
           [] e.ev = "end"       -> st1
-          [] e.ev \in {"cb", "lcall", "bstart", "lookup", "lookup_ret"} -> st1
+          [] e.ev \in {"cb", "lcall"} /\ Bad(st1.invalid \/ st1.oversize, "C15_InvalidIgnored") -> Fail(st1, "C15_InvalidIgnored")
+          [] e.ev = "cb" -> IF e.kind = "add" THEN [st1 EXCEPT !.added = @ \cup {e.name}]
+                            ELSE IF e.kind = "rem" THEN [st1 EXCEPT !.added = @ \ {e.name}] ELSE st1
+          [] e.ev = "expect_added" -> IF Bad(e.name \notin st1.added, "C15_CanaryAdded") THEN Fail(st1, "C15_CanaryAdded") ELSE st1
+          [] e.ev \in {"lcall", "bstart", "lookup", "lookup_ret"} -> st1
           [] e.ev = "tclose"    -> IF Bad(\E x \in st1.slots : x.kind = "bye" /\ ~x.used, "C17_GoodbyesBeforeClose")
                                    THEN Fail(st1, "C17_GoodbyesBeforeClose") ELSE st1
           [] e.ev = "exc"       -> Fail(st1, "C15_NoException")
